@@ -290,6 +290,9 @@ def _disposition(project, pinned=None) -> dict:
                 elif st and en and (s < st or e > en):
                     off = [x for x in (s, e) if x < st or x > en]
                     how = "|pinned-date" if all(x in inputs for x in off) else ""
+                    gran = project.attributes.get("scheduleGranularity") or 3600
+                    if not how and s >= st and s <= en and e > en and (e - en).total_seconds() <= gran:
+                        how = "|last-slot"  # work booked in the table's final slot, which starts AT the project end
                     bad.append([t.fullId, scIdx, "outside-horizon" + how, str(s), str(e)])
             else:
                 n_unsched += 1
